@@ -216,8 +216,27 @@ def rule_children_stay(ctx, M, rule):
                         bad.setdefault((b.def_, adt, p[0].get("name")), sp)
                     elif adt in crate_adts:
                         control += 1
+    # a plain accessor (`into_inner(self) -> F`) hands a child back to the caller and builds nothing: what breaks the
+    # properties is *re-building* a combinator from the parts of a partly consumed one - keep the findings of bodies that
+    # also construct a combinator (family entry point, `new` of a combinator type, struct literal of one)
+    FAMILY = {"join", "try_join", "race", "race_ok", "merge", "zip", "chain", "wait_until"}
+    builders = set()
+    for b in M.F.bodies:
+        for blk in b.j["blocks"]:
+            if blk.get("cleanup"):
+                continue
+            for st in blk["stmts"]:
+                if st["k"] == "assign" and st["rv"]["k"] == "agg" and st["rv"].get("cpath") in comb:
+                    builders.add(b.def_)
+            t = blk["term"]
+            if t.get("k") == "call" and "indirect" not in t["func"]:
+                f = t["func"]
+                if (f.get("name") in FAMILY and f.get("trait_c") and str(f.get("trait_c")).startswith("futures_concurrency::")) or \
+                        (f.get("name") == "new" and f.get("impl_self") is not None and M.adt_of_type(f["impl_self"]) in comb):
+                    builders.add(b.def_)
+    bad = {k: v for k, v in bad.items() if k[0] in builders}
     for (where, adt, fld), sp in sorted(bad.items()):
-        ctx.fail(rule, where, "moves field `%s` out of a by-value %s (a combinator is only ever taken apart by its own destructor)" % (fld, adt.split("::")[-1]), site=sp)
+        ctx.fail(rule, where, "moves field `%s` out of a by-value %s and builds a combinator in the same body (a partly consumed combinator must not be re-assembled)" % (fld, adt.split("::")[-1]), site=sp)
     if not bad:
         ctx.ok(rule, "<crate>", "no body moves a field out of a by-value future/stream combinator (%d combinator types; control: %d such moves out of other crate types)" % (len(comb), control),
                nontrivial=control > 0)
